@@ -114,15 +114,16 @@ Fixpoint compile (sp : specs) (tempo : Z) (sl : list bytes) : Outcome play :=
 (** * The scene-definition clauses and a whole script *)
 Inductive target := TActor (a : bytes) | TEvery (r : bytes).
 
+(** cast: (actor name, role name) in definition order ([cfg.actorNames]). *)
+Definition cast := list (bytes * bytes).
+
 Inductive cmd :=
+| CCast (more : cast)          (* a further `cast` section: these actors are hired now *)
 | CEntails (c : byte) (t : target) (actions : list bytes)
 | CMoodStart (c : byte) (m : bytes)
 | CMoodEnd (c : byte) (m : bytes)
 | CStoryline (text : bytes)
 | CEdit (subst : bytes -> bytes).
-
-(** cast: (actor name, role name) in definition order ([cfg.actorNames]). *)
-Definition cast := list (bytes * bytes).
 
 (** [maybeAddSceneSpec] followed by an update of the spec. *)
 Fixpoint upd_spec (sp : specs) (c : byte) (f : scene_spec -> scene_spec) : specs :=
@@ -141,31 +142,34 @@ Definition select_actors (cs : cast) (t : target) : option (list bytes) :=
   | TEvery r => Some (map fst (filter (fun e => bytes_eqb (snd e) r) cs))
   end.
 
-Record sstate := mkState { st_specs : specs; st_story : list bytes }.
-Definition init_state : sstate := mkState [] [].
+(** [st_more]: the actors hired by `cast` sections read after the first script
+    clause (the cast in force is the initial one followed by these). *)
+Record sstate := mkState { st_specs : specs; st_story : list bytes; st_more : cast }.
+Definition init_state : sstate := mkState [] [] [].
 
 Definition run_cmd (cs : cast) (st : sstate) (c : cmd) : Outcome sstate :=
   match c with
+  | CCast more => Ok (mkState (st_specs st) (st_story st) (st_more st ++ more))
   | CEntails ch t actions =>
-      match select_actors cs t with
+      match select_actors (cs ++ st_more st) t with
       | None => Err unknown_actor
       | Some [] => Ok st                      (* "warning: there is no actor playing role": clause dropped *)
       | Some found =>
           Ok (mkState (upd_spec (st_specs st) ch
                          (fun s => mkSpec (ss_entails s ++ map (fun a => (a, actions)) found)
                                           (ss_start s) (ss_end s)))
-                      (st_story st))
+                      (st_story st) (st_more st))
       end
   | CMoodStart ch m =>
-      Ok (mkState (upd_spec (st_specs st) ch (fun s => mkSpec (ss_entails s) m (ss_end s))) (st_story st))
+      Ok (mkState (upd_spec (st_specs st) ch (fun s => mkSpec (ss_entails s) m (ss_end s))) (st_story st) (st_more st))
   | CMoodEnd ch m =>
-      Ok (mkState (upd_spec (st_specs st) ch (fun s => mkSpec (ss_entails s) (ss_start s) m)) (st_story st))
+      Ok (mkState (upd_spec (st_specs st) ch (fun s => mkSpec (ss_entails s) (ss_start s) m)) (st_story st) (st_more st))
   | CStoryline text =>
       obind (do_storyline (defined (st_specs st)) (st_story st) text)
-            (fun sl => Ok (mkState (st_specs st) sl))
+            (fun sl => Ok (mkState (st_specs st) sl (st_more st)))
   | CEdit f =>
       obind (do_edit (defined (st_specs st)) (st_story st) f)
-            (fun sl => Ok (mkState (st_specs st) sl))
+            (fun sl => Ok (mkState (st_specs st) sl (st_more st)))
   end.
 
 Fixpoint run_script (cs : cast) (st : sstate) (cmds : list cmd) : Outcome sstate :=
